@@ -20,7 +20,7 @@ pub const N_IDS: usize = 256;
 
 static SPEC: OnceLock<Spec> = OnceLock::new();
 /// Per id: the options letter and (for argument runners) the id owning the argument list.
-static OPTS: OnceLock<Vec<char>> = OnceLock::new();
+static OPTS: OnceLock<Vec<(char, bool)>> = OnceLock::new();
 static OWNER: OnceLock<Vec<usize>> = OnceLock::new();
 static OWNER_ARGS: OnceLock<Vec<Option<Args>>> = OnceLock::new();
 
@@ -307,10 +307,16 @@ fn args_runner<const ID: usize>() -> BenchEntryRunner {
 }
 
 fn opts_fn<const ID: usize>() -> BenchOptions<'static> {
-    match OPTS.get().unwrap()[ID] {
-        't' => BenchOptions { ignore: Some(true), ..Default::default() },
-        'f' => BenchOptions { ignore: Some(false), ..Default::default() },
-        _ => BenchOptions::default(),
+    let (letter, threads_empty) = OPTS.get().unwrap()[ID];
+    BenchOptions {
+        ignore: match letter {
+            't' => Some(true),
+            'f' => Some(false),
+            _ => None,
+        },
+        // present but empty: the benchmark still runs once, on one thread
+        threads: if threads_empty { Some(Cow::Borrowed(&[])) } else { None },
+        ..Default::default()
     }
 }
 
@@ -426,18 +432,18 @@ fn runner(id: usize, has_args: bool) -> BenchEntryRunner {
 /// Builds and registers everything; afterwards the global lists iterate in
 /// the spec's order.
 pub fn install(spec: Spec) {
-    let mut opts = vec!['-'; N_IDS];
+    let mut opts = vec![('-', false); N_IDS];
     let mut owner = vec![usize::MAX; N_IDS];
     let mut owner_args: Vec<Option<Args>> = vec![None; N_IDS];
     for item in &spec.items {
         match item {
             Item::B(b) => {
-                opts[b.meta.id] = b.meta.opts;
+                opts[b.meta.id] = (b.meta.opts, b.meta.threads_empty);
                 owner[b.meta.id] = b.meta.id;
                 owner_args[b.meta.id] = b.args.clone();
             }
             Item::G(g) => {
-                opts[g.meta.id] = g.meta.opts;
+                opts[g.meta.id] = (g.meta.opts, g.meta.threads_empty);
                 owner_args[g.meta.id] = g.args.clone();
                 for row in g.generic.iter().flatten() {
                     for e in row {
